@@ -13,8 +13,10 @@ pub mod c12;
 pub mod c13;
 pub mod c14;
 pub mod c15;
+pub mod c16;
 pub mod c17;
 pub mod c18;
+pub mod c19;
 pub mod c20;
 
 use crate::engine::Report;
@@ -44,10 +46,20 @@ pub fn run(id: &str, rep: &mut Report) -> bool {
         "C13" => c13::run(rep),
         "C14" => c14::run(rep),
         "C15" => c15::run(rep),
+        "C16" => c16::run(rep),
         "C17" => c17::run(rep),
         "C18" => c18::run(rep),
+        "C19" => c19::run(rep),
         "C20" => c20::run(rep),
         _ => return false,
     }
     true
+}
+
+/// Case lists that can be rebuilt inside a child process (engine::explore_in_children)
+pub fn child_cases(builder: &str, tier: crate::engine::Tier) -> Option<Vec<Box<dyn crate::engine::Case>>> {
+    match builder {
+        "C16" => Some(c16::build_cases(tier)),
+        _ => None,
+    }
 }
